@@ -140,3 +140,11 @@ more('C19', 'uses-all-arguments rule on entry points, probe interpretation of Qa
 more('C20', 'lexical-scope rule on the concurrency limiter', 'C20.f job results awaited inside the limiter')
 more('C03', 'interpretation of parametric closed forms at probe parameters', 'C03.f GPI/GPI2/MS/ZZ, FSim, PhasedFSim, PhasedXZ closed forms == reference matrices')
 more('C09', 'flow rule on trajectory renormalisation', 'C09.b renormalise by the sampled branch norm, draw by subtracting branch weights from a uniform draw')
+
+more('C02', 'parameter taint: a seed parameter is never handed raw to a call inside a loop', 'C02.k one generator per call (integer seeds do not restart the stream per axis / factor / measurement)')
+more('C13', 'parameter taint on the seed of measure()', 'C13.h both stabilizer representations draw every measured axis from one generator')
+more('C05', 'path rule on one-shot iterable parameters', 'C05.j an OP_TREE / Iterable argument already flattened into a local is not consumed again')
+more('C11', 'effect rule on module-level containers', 'C11.j the JSON / equality machinery keeps no state between calls (tabled import-time registries aside)')
+more('C16', 'effect rule on module-level containers', 'C16.i converters keep no state between calls')
+more('C17', 'effect rule on module-level containers', 'C17.f vendor converters keep no state between calls')
+more('C20', 'must-pass-through on the cancellation arm, zero-preserving defaults', 'C20.a(+) the cancel RPC is sent on every path of the cancellation arm that has a request in flight; C20.g budgets are not defaulted with `x or <non-zero>`')
